@@ -32,6 +32,9 @@ HISTORIES = {
     'initial': ({}, []),
     'initial-tunnel-ah': (dict(mode='tunnel', ipsec_proto='ah'), [T('A', 'expire_soft'), D]),
     'initial-v6': (dict(v6=True), [T('B', 'expire_soft'), D, T('A', 'expire_hard'), D]),
+    'tunnel-6in4': (dict(mode='tunnel', a_subnet='fd00:a::/64', b_subnet='fd00:b::/64'), [T('B', 'expire_soft'), D, T('A', 'acquire'), D, T('A', 'expire_hard'), D, T('B', 'rekey_ike'), D, T('B', 'delete_ike'), D]),
+    'tunnel-4in6': (dict(v6=True, mode='tunnel', a_subnet='10.1.0.0/24', b_subnet='10.2.0.0/16', ipsec_proto='ah'), [T('A', 'expire_soft'), D, T('B', 'expire_hard'), D, T('A', 'delete_ike'), D]),
+    'tunnel-wide-subnets': (dict(mode='tunnel', a_subnet='10.1.0.0/16', b_subnet='10.2.0.0/24'), [T('A', 'acquire'), D, T('B', 'expire_soft'), D, T('A', 'expire_hard'), D]),
     'new-child-A': ({}, [T('A', 'acquire'), D]),
     'new-child-B': ({}, [T('B', 'acquire'), D]),
     'rekey-child-A': ({}, [T('A', 'expire_soft'), D]),
